@@ -122,6 +122,22 @@ def build(repo: str) -> Dict[str, Any]:
     else:
         out["xmlLevelTypeLoop"] = "unrecognised"
         out["unrecognised"].append(f"{XML}: data_specification_iec61360_to_xml: the loop that emits the levelType children")
+    # (round 8) does the JSON writer leave `ensure_ascii` at json's default (True: the text is pure ASCII, so it is the same document
+    # in every ASCII-compatible encoding a caller's text stream may have)?  Every mention outside docstrings counts: a keyword
+    # argument, a string constant (kwargs.setdefault("ensure_ascii", …)), an attribute or a name.
+    docstrings = {id(n.body[0].value) for n in ast.walk(jt) if isinstance(n, (ast.FunctionDef, ast.ClassDef, ast.Module)) and n.body
+                  and isinstance(n.body[0], ast.Expr) and isinstance(n.body[0].value, ast.Constant)}
+    mentions = []
+    for n in ast.walk(jt):
+        if isinstance(n, ast.keyword) and n.arg == "ensure_ascii":
+            mentions.append(f"line {n.value.lineno}: ensure_ascii={_src(n.value)}")
+        elif isinstance(n, ast.Constant) and n.value == "ensure_ascii" and id(n) not in docstrings:
+            mentions.append(f"line {n.lineno}: 'ensure_ascii'")
+        elif isinstance(n, ast.Attribute) and n.attr == "ensure_ascii":
+            mentions.append(f"line {n.lineno}: .ensure_ascii")
+        elif isinstance(n, ast.Name) and n.id == "ensure_ascii":
+            mentions.append(f"line {n.lineno}: ensure_ascii")
+    out["jsonEnsureAsciiOverrides"] = sorted(set(mentions))
     return out
 
 
@@ -143,4 +159,6 @@ def emit_lean(d: Dict[str, Any]) -> str:
         "/-- how `data_specification_iec61360_to_xml` emits the children of `levelType`: dictItems = one child per entry of",
         "    `_generic.IEC61360_LEVEL_TYPES`, in the dict's order -/",
         f"def xmlLevelTypeLoop : String := {q(d['xmlLevelTypeLoop'])}", "",
+        "/-- every place where json_serialization.py touches `ensure_ascii` (none: json's default True applies - the written text is ASCII) -/",
+        "def jsonEnsureAsciiOverrides : List String := [" + ", ".join(q(m.replace('"', "'")) for m in d.get('jsonEnsureAsciiOverrides', [])) + "]", "",
         "end Basyx.Gen.Dispatch", ""])
